@@ -16,8 +16,9 @@ def vf_methods():
         return {"name": name, "arguments": args or [], "return_type": {"type": ret}}
     common = [m("vf_int", ["Int"]), m("vf_u", ["Int", "String"]), m("vf_sarr", ["[String]"]),
               m("vf_opt", ["?String"]), m("vf_self", ["Self"]), m("vf_arg", ["Argument"], [{"type": ["Untyped"]}])]
-    per = {"Array": common + [m("vf_unify", ["Unify"]), m("vf_ounify", ["OptionalUnify"]), m("vf_selfarr", ["SelfArray"])],
-           "Hash": common + [m("vf_unify", ["Unify"]), m("vf_kva", ["KeyValueArray"])],
+    mixed = [m("vf_unify_nil", ["Unify", "NilClass"]), m("vf_self_int", ["Self", "Int"]), m("vf_unify_str", ["Unify", "String"])]
+    per = {"Array": common + mixed + [m("vf_unify", ["Unify"]), m("vf_ounify", ["OptionalUnify"]), m("vf_selfarr", ["SelfArray"])],
+           "Hash": common + mixed + [m("vf_unify", ["Unify"]), m("vf_kva", ["KeyValueArray"])],
            "String": list(common), "Integer": list(common), "Float": list(common)}
     return per
 
@@ -58,8 +59,17 @@ _TOK = re.compile(r"Union<|Array<|>|[^\s<>]+")
 
 
 def parse_ti_type(s):
-    """ti's printed type -> canonical form (same shape as model_type); None if unparsable."""
-    toks = _TOK.findall(s.strip())
+    """ti's printed type -> canonical form (same shape as model_type); None if unparsable.
+    A union printed inside a union, or a union listing the same member twice, is not a type the
+    reference model ever has: it is returned as ('malformed', text) and equals nothing."""
+    st = s.strip()
+    if re.search(r"Union<[^<>]*Union<", st) or re.search(r"Union<Union<", st):
+        return ("malformed", st)
+    for inner in re.findall(r"(?:Union|Array)<([^<>]*)>", st):
+        parts = inner.split()
+        if len(parts) != len(set(parts)):
+            return ("malformed", st)
+    toks = _TOK.findall(st)
     pos = [0]
 
     def atoms():
@@ -107,6 +117,8 @@ def parse_ti_type(s):
 def show(t):
     if t is None:
         return "?"
+    if t[0] == "malformed":
+        return "malformed(%s)" % t[1]
     if t[0] != "t":
         return t[0]
     parts = []
